@@ -128,9 +128,60 @@ pub(crate) struct Clauses {
 impl Clauses {
     pub fn alloc(&mut self, watched_literals: Option<WatchedLiterals>, kind: Clause) -> ClauseId {
         let id = ClauseId::from_usize(self.kinds.len());
+        #[cfg(resolvo_verif)]
+        self.verif_emit_alloc(id, &kind);
         self.kinds.push(kind);
         self.watched_literals.push(watched_literals);
         id
+    }
+}
+
+#[cfg(resolvo_verif)]
+impl Clauses {
+    /// Reports the allocation of a clause whose literals are determined by its
+    /// kind alone. `Requires` and `Learnt` clauses are reported by the code
+    /// that creates them, once their literals are stored.
+    fn verif_emit_alloc(&self, id: ClauseId, kind: &Clause) {
+        use crate::verif::{ClauseKind, Event};
+        let lit = |l: Literal| (l.variable().to_usize() as u32, !l.negate());
+        let v = |v: VariableId| v.to_usize() as u32;
+        crate::verif::emit_opt(|| {
+            let (kind, lits) = match *kind {
+                Clause::InstallRoot => (ClauseKind::Root, vec![(0, true)]),
+                Clause::Constrains(p, c, vs) => (
+                    ClauseKind::Constrains {
+                        parent: v(p),
+                        forbidden: v(c),
+                        version_set: vs.0,
+                    },
+                    vec![lit(p.negative()), lit(c.negative())],
+                ),
+                Clause::ForbidMultipleInstances(a, b, name) => (
+                    ClauseKind::Forbid {
+                        var: v(a),
+                        helper: lit(b),
+                        name: name.0,
+                    },
+                    vec![lit(a.negative()), lit(b)],
+                ),
+                Clause::Lock(locked, other) => (
+                    ClauseKind::Lock {
+                        locked: v(locked),
+                        other: v(other),
+                    },
+                    vec![lit(VariableId::root().negative()), lit(other.negative())],
+                ),
+                Clause::Excluded(s, _) => {
+                    (ClauseKind::Excluded { var: v(s) }, vec![lit(s.negative())])
+                }
+                Clause::Requires(..) | Clause::Learnt(..) => return None,
+            };
+            Some(Event::Clause {
+                id: id.to_usize() as u32 + 1,
+                kind,
+                lits,
+            })
+        });
     }
 }
 
@@ -394,6 +445,11 @@ impl<D: DependencyProvider, RT: AsyncRuntime> Solver<D, RT> {
             .unwrap_or(0);
 
         let mut level = starting_level;
+        #[cfg(resolvo_verif)]
+        crate::verif::emit(|| crate::verif::Event::RunSat {
+            target: root_solvable.solvable().map(|s| s.0),
+            starting_level,
+        });
 
         loop {
             if level == starting_level {
@@ -417,6 +473,8 @@ impl<D: DependencyProvider, RT: AsyncRuntime> Solver<D, RT> {
                     "╤══ Install {} at level {level}",
                     root_solvable.display(self.provider())
                 );
+                #[cfg(resolvo_verif)]
+                crate::verif::tag(crate::verif::Tag::Install);
                 self.state
                     .decision_tracker
                     .try_add_decision(
@@ -472,6 +530,8 @@ impl<D: DependencyProvider, RT: AsyncRuntime> Solver<D, RT> {
                         );
                         level = starting_level;
                         self.state.decision_tracker.undo_until(starting_level);
+                        #[cfg(resolvo_verif)]
+                        crate::verif::emit(|| crate::verif::Event::Restart { starting_level });
                         continue;
                     }
                 }
@@ -566,6 +626,8 @@ impl<D: DependencyProvider, RT: AsyncRuntime> Solver<D, RT> {
             if let Some(_first_conflicting_clause_id) = conflicting_clauses.into_iter().next() {
                 self.state.decision_tracker.undo_until(starting_level);
                 level = starting_level;
+                #[cfg(resolvo_verif)]
+                crate::verif::emit(|| crate::verif::Event::Restart { starting_level });
             }
         }
     }
@@ -590,6 +652,8 @@ impl<D: DependencyProvider, RT: AsyncRuntime> Solver<D, RT> {
             ))
         } else {
             self.state.decision_tracker.undo_until(starting_level);
+            #[cfg(resolvo_verif)]
+            crate::verif::tag(crate::verif::Tag::SoftFalse);
             self.state
                 .decision_tracker
                 .try_add_decision(
@@ -893,6 +957,8 @@ impl<D: DependencyProvider, RT: AsyncRuntime> Solver<D, RT> {
     ) -> Result<u32, UnsolvableOrCancelled> {
         level += 1;
 
+        #[cfg(resolvo_verif)]
+        crate::verif::tag(crate::verif::Tag::Decide);
         self.state
             .decision_tracker
             .try_add_decision(Decision::new(solvable, true, clause_id), level)
@@ -1285,6 +1351,10 @@ impl<D: DependencyProvider, RT: AsyncRuntime> Solver<D, RT> {
             );
         }
 
+        #[cfg(resolvo_verif)]
+        crate::verif::emit(|| crate::verif::Event::Unsat {
+            ids: conflict.verif_clause_ids(),
+        });
         conflict
     }
 
@@ -1398,6 +1468,21 @@ impl<D: DependencyProvider, RT: AsyncRuntime> Solver<D, RT> {
 
         let (watched_literals, kind) = WatchedLiterals::learnt(learnt_id, &learnt);
         let clause_id = self.state.clauses.alloc(watched_literals, kind);
+        #[cfg(resolvo_verif)]
+        crate::verif::emit(|| crate::verif::Event::Learnt {
+            id: clause_id.to_usize() as u32 + 1,
+            lits: learnt
+                .iter()
+                .map(|l| (l.variable().to_usize() as u32, !l.negate()))
+                .collect(),
+            why: self
+                .state
+                .learnt_why
+                .get(learnt_id)
+                .map(|why| why.iter().map(|c| c.to_usize() as u32 + 1).collect())
+                .unwrap_or_default(),
+            backtrack_to: back_track_to.max(1),
+        });
         self.state.learnt_clause_ids.push(clause_id);
         if let Some(watched_literals) =
             self.state.clauses.watched_literals[clause_id.to_usize()].as_mut()
